@@ -4,6 +4,7 @@ property-breaking change (seeded mutant). The agent gets only the property text 
 scratch worktree; nothing from /verif."""
 import json, sys
 pid, wt, out = sys.argv[1:4]
+N1, N2 = (sys.argv[4], sys.argv[5]) if len(sys.argv) > 5 else ("1", "2")
 p = None
 for l in open('/verif/properties.jsonl'):
     q = json.loads(l)
@@ -37,7 +38,7 @@ Produce TWO different, independent changes (mutants) to the library source (non-
 3. is REALISTIC — the kind of slip a maintainer could make in a refactor/optimisation/bug-fix (off-by-one, wrong comparison, dropped check, reordered statements, wrong variable, missed case, boundary condition), small (a few lines);
 4. needs SOMETHING SPECIFIC to manifest — an unusual input or boundary value, a particular multi-step sequence of operations, a particular configuration, a fault at a particular point, or two cooperating sites that each look fine alone. NOT something that ordinary use would expose at once (it must not break the common path).
 
-For each mutant N in {{1,2}} write into `{out}/N/`:
+For each mutant N in {{{N1},{N2}}} write into `{out}/N/`:
   - `patch.diff`   — output of `git -C {wt} diff` for that mutant only (apply cleanly with `git apply` on the pristine worktree HEAD);
   - a demonstration: either `demo_test.go` (a Go test file; say in meta.json which package directory it must be copied into, and the `go test -run` command) or a small `main` program, that FAILS with the change and PASSES without it;
   - `meta.json` — {{"property": "{pid}", "summary": "...what was changed and why it breaks the property...", "needs": "...what specific input/sequence/config is needed for it to manifest...", "demo_pkg_dir": "<dir relative to repo root where demo_test.go goes>", "demo_cmd": "<command run from repo root>"}}.
